@@ -169,6 +169,8 @@ def register(op):
                 if k == "size": return x.size
                 if k == "rotate": return [[names(s_), list(t_)] for s_, t_ in x.rotate()]
                 if k == "rotate_pt": return [[[names(r_) for r_ in st_], [list(r_) for r_ in pt_]] for st_, pt_ in x.rotate_pt()]
+                if k == "rotate_t": return [[names(s_), list(t_)] for s_, t_ in x.rotate(arg)]
+                if k == "rotate_pt_t": return [[[names(r_) for r_ in st_], [list(r_) for r_ in pt_]] for st_, pt_ in x.rotate_pt(arg)]
                 if k == "strand_length": return x.strand_length(arg)
                 if k == "get_domain": return x.get_domain(tuple(arg)).name
                 if k == "get_paired_loc": return x.get_paired_loc(tuple(arg))
@@ -197,6 +199,21 @@ def register(op):
                 continue
             arg = o[1] if len(o) > 1 else None
             got = view(c, k, arg)
+            if k in ("rotate_pt_t", "rotate_pt", "rotate_t", "rotate") and not isinstance(got, str):
+                # the two generators enumerate the same rotations: tables of the (sequence, structure) pairs
+                from dsdobjects import complex_utils as cu_
+                R = view(c, "rotate_t" if k.endswith("_t") else "rotate", arg)
+                P = view(c, "rotate_pt_t" if k.endswith("_t") else "rotate_pt", arg)
+                ok_ = isinstance(R, list) and isinstance(P, list) and len(R) == len(P)
+                if ok_:
+                    for (sq_, st_), (stab_, ptab_) in zip(R, P):
+                        if [list(x_) for x_ in cu_.make_strand_table(list(sq_))] != stab_ or \
+                                [list(x_) for x_ in cu_.make_pair_table(list(st_))] != [[tuple(e_) if e_ is not None else None for e_ in r_] for r_ in ptab_] and \
+                                [[list(e_) if e_ is not None else None for e_ in r_] for r_ in cu_.make_pair_table(list(st_))] != ptab_:
+                            ok_ = False
+                if not ok_:
+                    bad = f"rotate({arg}) and rotate_pt({arg}) do not enumerate the same rotations: {R!r} vs {P!r}"
+                    break
             clear_singletons(Twin)
             t = Twin(doms(names(c.sequence)), list(c.structure), name="T")
             want = view(t, k, arg)
@@ -305,6 +322,11 @@ def register_c12(op):
         import os, tempfile
         seq, struct = a
         fresh()
+        # the reader was configured with user classes before and is then set back to the library classes
+        class _C(bc.ComplexS): pass
+        class _D(bc.DomainS): pass
+        objectio.set_io_objects(D=_D, C=_C)
+        objectio.set_io_objects()
         ds = [dom(x) if x != "+" else "+" for x in seq]
         c = bc.ComplexS(ds, list(struct), name="Y")
         # a composite domain (strand) that happens to carry the name of one of the complex's domains
